@@ -117,7 +117,7 @@ def main():
             for f in r["failed"]:
                 if f["supporting"]:
                     continue
-                if meta.get("safety_only") and not is_safety(f):
+                if meta.get("safety_only") and not is_safety(f) and not any(re.search(x, g.name) for x in meta.get("safety_functional", [])):
                     # a functional clause of another property failed in a group that C08 only borrows for its safety obligations:
                     # it is judged (violation or known finding) by that property's own check
                     entry.setdefault("functional_failures_judged_by_their_own_property", []).append(f["property"])
